@@ -151,6 +151,12 @@ fn main() {
     st.samples.clear();
     ctx.stats.merge(st);
     run_property(&prop, &mut ctx);
+    // behaviour must not depend on the payload types: generated program with other key / value types
+    for p in ["C03", "C04", "C05", "C06", "C09", "C10", "C11", "C12", "C18"] {
+        if p == prop {
+            progs::payload_independence(&mut ctx, p);
+        }
+    }
     if tier == Tier::Thorough && ["C01", "C02", "C03", "C04", "C05", "C06", "C07", "C08", "C09", "C10", "C18", "C19", "C20"].contains(&prop.as_str()) {
         // auxiliary coverage-guided campaign: the `ops` target decodes bytes into this property's
         // structured cases and runs the same oracles
